@@ -207,6 +207,7 @@ pub async fn scenario(line: &str) -> String {
     "peerclose" => peerclose(&p).await,
     "bystander" => bystander(&p).await,
     "subhist" => subhist(&p).await,
+    "routerlate" => routerlate(&p).await,
     "retrypace" => retrypace(&p).await,
     "chanleak" => chanleak(&p).await,
     "rchurn" => rchurn(&p).await,
@@ -2742,6 +2743,104 @@ async fn retrypace(p: &[&str]) -> String {
   } else {
     "retrypace=ok".into()
   }
+}
+
+/// `routerlate <tcp|ipc|inproc> <sender type DEALER|REQ> <burst> <rounds>`
+/// A peer with ROUTING_ID `peer-a` connects to a ROUTER, one exchange confirms that the ROUTER reports that identity, then the
+/// peer sends a burst the ROUTER application does not read, and closes. Only then the ROUTER reads: whatever still arrives
+/// must carry the identity the peer announced (messages may be lost with the connection, never re-labelled). Repeated, so
+/// that pipe numbers differ.
+async fn routerlate(p: &[&str]) -> String {
+  let transport = p[1];
+  let sty = p[2];
+  let burst: usize = p[3].parse().unwrap();
+  let rounds: usize = p[4].parse().unwrap();
+  let ctx = Context::new().expect("ctx");
+  let router = ctx.socket(SocketType::Router).unwrap();
+  let _ = set_i32(&router, o::RCVTIMEO, 400).await;
+  let ep = match transport {
+    "tcp" => "tcp://127.0.0.1:0".to_string(),
+    "ipc" => format!("ipc:///tmp/{}.sock", unique_name("rzmq-verif-rl")),
+    _ => format!("inproc://{}", unique_name("routerlate")),
+  };
+  if router.bind(&ep).await.is_err() {
+    return "setup-error bind".into();
+  }
+  let target = if transport == "tcp" { last_endpoint(&router).await } else { ep.clone() };
+  let mut late_total = 0usize;
+  for round in 0..rounds {
+    let peer = ctx.socket(socket_type(sty)).unwrap();
+    let _ = peer.set_option_raw(o::ROUTING_ID, b"peer-a").await;
+    let _ = set_i32(&peer, o::SNDTIMEO, 1000).await;
+    let _ = set_i32(&peer, o::LINGER, 200).await;
+    if peer.connect(&target).await.is_err() {
+      return "setup-error connect".into();
+    }
+    // first exchange: read at once
+    let mut first_ok = false;
+    for _ in 0..40 {
+      if peer.send(Msg::from_static(b"hello")).await.is_ok() {
+        first_ok = true;
+        break;
+      }
+      tokio::time::sleep(Duration::from_millis(25)).await;
+    }
+    if !first_ok {
+      return format!("setup-error round {} first send", round);
+    }
+    let _ = set_i32(&router, o::RCVTIMEO, 2000).await;
+    match router.recv_multipart().await {
+      Ok(fr) if fr.first().map(|f| f.data() == Some(&b"peer-a"[..])).unwrap_or(false) => {}
+      Ok(fr) => {
+        return format!(
+          "ORACLE-FAIL key=router-identity round {}: the first message of the peer that announced `peer-a` is reported with the identity {:?}",
+          round,
+          fr.first().map(|f| String::from_utf8_lossy(f.data().unwrap_or(&[])).to_string())
+        )
+      }
+      Err(e) => return format!("setup-error round {} first recv {}", round, err_class(&e)),
+    }
+    let _ = set_i32(&router, o::RCVTIMEO, 400).await;
+    if sty == "REQ" {
+      // a REQ has one request outstanding at a time: answer, then let it send the one that stays unread
+      let mut idf = Msg::from_static(b"peer-a");
+      idf.set_flags(rzmq::MsgFlags::MORE);
+      let mut delim = Msg::new();
+      delim.set_flags(rzmq::MsgFlags::MORE);
+      let _ = router.send_multipart(vec![idf, delim, Msg::from_static(b"re")]).await;
+      let _ = set_i32(&peer, o::RCVTIMEO, 1000).await;
+      let _ = peer.recv().await;
+      let _ = peer.send(Msg::from_static(b"late-0")).await;
+    } else {
+      for i in 0..burst {
+        let _ = peer.send(Msg::from_vec(format!("late-{}", i).into_bytes())).await;
+      }
+    }
+    tokio::time::sleep(Duration::from_millis(60)).await;
+    let _ = tokio::time::timeout(Duration::from_secs(3), peer.close()).await;
+    tokio::time::sleep(Duration::from_millis(120)).await;
+    // now the ROUTER reads what is left of that peer
+    loop {
+      match router.recv_multipart().await {
+        Ok(fr) => {
+          late_total += 1;
+          let id = fr.first().map(|f| f.data().unwrap_or(&[]).to_vec()).unwrap_or_default();
+          if id != b"peer-a" {
+            return format!(
+              "ORACLE-FAIL key=router-identity round {}: a message the peer `peer-a` had sent before it disconnected is delivered with the identity frame {:?}",
+              round,
+              String::from_utf8_lossy(&id)
+            );
+          }
+        }
+        Err(_) => break,
+      }
+    }
+  }
+  let _ = late_total;
+  let _ = tokio::time::timeout(Duration::from_secs(3), router.close()).await;
+  let _ = tokio::time::timeout(Duration::from_secs(12), ctx.term()).await;
+  "routerlate=ok".into()
 }
 
 /// `subhist <tcp|inproc> <history> <probe topics>`
